@@ -2,13 +2,15 @@
 qvdriver — line-protocol driver over the executable model (QV.Model.* only; no Mathlib).
 One JSON object per input line: {"op": "...", ...}; one JSON line per answer:
 {"ok": <result>} or {"err": "<message>"}.
+(one import / one handler per line: this file is union-merged)
 -/
 import DriverLib.Basic
 import DriverLib.C01
 open Lean Drv
 
-def handlers : List (String → Json → Option (R Json)) :=
-  [Drv.C01.handle]
+def handlers : List (String → Json → Option (R Json)) := [
+  Drv.C01.handle,
+  fun _ _ => none]
 
 def dispatch (line : String) : Json :=
   match Json.parse line with
